@@ -51,9 +51,14 @@ def add_shapes(p):
     zqc = {"n": "zqc", "ps": ["k"], "pt": ["Int"], "rt": "Int", "line": 0, "b": [
         n("let", n="zc", e=n("lam", ps=["za"], rt="Int", b=[n("let", n="zs", e=P("+", V("za"), V("k"))), t3])),
         n("call", f=V("zc"), args=[I(4)])]}
+    # the selection contains its own binder for a name that is also free in it: (fun(k) { k * 2 })(3) + k
+    t4 = P("+", n("call", f=n("paren", e=n("lam", ps=["k"], rt="Int", b=[P("*", V("k"), I(2))])), args=[I(3)]), V("k"))
+    t4["probe_fn"] = True
+    zqg = {"n": "zqg", "ps": ["k"], "pt": ["Int"], "rt": "Int", "line": 0, "b": [t4]}
     for t in (t1, t2, t3):
         t["probe"] = True
-    p["funs"] += [zqe, zqm, zqc]
+    p["funs"] += [zqe, zqm, zqc, zqg]
+    p["main"].append(n("show", e=n("call", f=V("zqg"), args=[I(5)])))
     for f, args in (("zqe", 7), ("zqe", 0), ("zqm", 0), ("zqm", 3), ("zqc", 2)):
         p["main"].append(n("show", e=n("call", f=V(f), args=[I(args)])))
 
@@ -85,6 +90,10 @@ def run(tier, seed):
                 for t in rf.nodes({"funs": [], "main": b}, lambda n: True):
                     inner.add(id(t))
         cand.sort(key=lambda n: 0 if n.get("probe") else 1 if (id(n) in inner and rf.has_kind(n, {"var"})) else 2)
+        fn_probes = rf.nodes(p, lambda n: n.get("probe_fn") and "start" in n)
+        for n in fn_probes:
+            jobs.append((["reftest-extract-function", "--name", "extracted", "FILE", str(n["start"]), str(n["end"])], s))
+            meta.append((p, s, e, n, "function"))
         for n in cand[:5 if tier == "quick" else 9]:
             for what in ("variable", "function"):
                 jobs.append(([f"reftest-extract-{what}", "--name", "extracted", "FILE", str(n["start"]), str(n["end"])], s))
